@@ -28,31 +28,38 @@ theorem fact_split : sep = '_' ∧ partCount = 4 ∧ resolveTypeSuffix = ['_'] :
 theorem fact_resolve_order :
     resolveIdx = (0, 2, 3, 1) ∧ parseKeyAssign = ["AppTypePrefix", "AppName", "PodName", "Namespace"] := by decide
 
-/-- `NewKeyObj(appTypePrefix, namespace, appName, podName, poolName)`; `ReleaseIPs` and `ListIPs` pass the entry's
-    fields in exactly that order: the model's `releaseKey` / `listKey` do the same -/
+/-- `NewKeyObj(p0, …, p4)` stores its parameters in (AppTypePrefix, Namespace, AppName, PodName, PoolName) and calls genKey;
+    `ReleaseIPs` passes the entry's (Namespace, AppName, PodName, PoolName) and `ListIPs` the query parameters
+    (namespace, appName, podName, poolName) in exactly that order: the model's `releaseKey` / `listKey` do the same
+    (normal forms: `elem#0` is the request entry, `@0` the http request) -/
 theorem fact_newKeyObj_wiring :
-    newKeyObjParams = ["appTypePrefix", "namespace", "appName", "podName", "poolName"] ∧
-    releaseKeyArgs = ["appTypePrefix", "Namespace", "AppName", "PodName", "PoolName"] ∧
-    listKeyArgs = ["appTypePrefix", "namespace", "appName", "podName", "poolName"] := by decide
+    newKeyObjWiring = ["AppTypePrefix", "Namespace", "AppName", "PodName", "PoolName"] ∧
+    releaseKeyArgs = ["elem#0.Namespace", "elem#0.AppName", "elem#0.PodName", "elem#0.PoolName"] ∧
+    listKeyArgs = ["(call @0.QueryParameter \"namespace\")", "(call @0.QueryParameter \"appName\")",
+      "(call @0.QueryParameter \"podName\")", "(call @0.QueryParameter \"poolName\")"] := by decide
 
-/-- `convert` copies the parsed key's fields and lists `GetAppType(prefix)` as the app type -/
+/-- `convert` copies the fields of `ParseKey(record.Key)` and lists `GetAppType(prefix)` as the app type -/
 theorem fact_convert_wiring :
-    convertFields = [("IP", "fip.IP.String()"), ("Namespace", "keyObj.Namespace"), ("AppName", "keyObj.AppName"),
-      ("PodName", "keyObj.PodName"), ("PoolName", "keyObj.PoolName"),
-      ("AppType", "util.GetAppType(keyObj.AppTypePrefix)")] := by decide
+    convertFields = [("IP", "(call @0.IP.String)"), ("Namespace", "(call util.ParseKey @0.Key).Namespace"),
+      ("AppName", "(call util.ParseKey @0.Key).AppName"), ("PodName", "(call util.ParseKey @0.Key).PodName"),
+      ("PoolName", "(call util.ParseKey @0.Key).PoolName"),
+      ("AppType", "(call util.GetAppType (call util.ParseKey @0.Key).AppTypePrefix)")] := by decide
 
 /-- an omitted app type means statefulset in both handlers (the `else` is in place), and `Release` re-checks
     the record's key under the pod lock before it mutates anything -/
 theorem fact_api_shape : releaseDefaultsToSts = true ∧ listDefaultsToSts = true ∧ releaseMatchesKey = true := by
   decide
 
-/-- every handler shape the model transcribes (the two loops of `ReleaseIPs` — one fresh release request appended per
-    releasable entry, each executed in order —, `convert`, the paging calls of `ListIPs`) was recognised in the source -/
+/-- every source shape the model transcribes was recognised by the translator: the values above were read off the
+    normal forms of the current source, and `FormatKey`, `resolveDeploymentName`, `ParseKey`, `PagingParams`, `ListIPs` and
+    `ReleaseIPs` (two loops — one fresh release request appended per releasable entry, each executed in order) have the
+    normal form of the pinned source the hand-written model follows -/
 theorem fact_handler_shapes : shapeErrors = [] := by decide
 
 /-- inside both handlers `util.GetAppTypePrefix` is applied to the entry's / the query's app type itself — one call each,
     no helper and no normalising wrapper (trimming, case folding, …) in between -/
-theorem fact_prefix_args : releasePrefixArgs = ["temp.AppType"] ∧ listPrefixArgs = ["appType"] := by decide
+theorem fact_prefix_args :
+    releasePrefixArgs = ["elem#0.AppType"] ∧ listPrefixArgs = ["(call @0.QueryParameter \"appType\")"] := by decide
 
 /-- handler-level prefix resolution, made explicit: given the facts above (`fact_api_shape`, `fact_handler_shapes`,
     `fact_prefix_args`), the prefix `ReleaseIPs` and `ListIPs` derive from an app type is exactly
